@@ -18,7 +18,11 @@ REQUIRED = [
     'Ems.C12.floor_index_spec', 'Ems.C12.floor_index_none', 'Ems.C12.floor_index_valid_only',
     'Ems.C12.column_floor_spec', 'Ems.C12.floor_spec', 'Ems.C12.other_vars_untouched',
     'Ems.C12.depth_removed', 'Ems.C12.ocean_floor_succeeds', 'Ems.C12.keep_bounds_breaks_ocean_floor', 'Ems.C12.sizes_kept',
+    # B1: about the term generated from the source of _find_ocean_floor_indexes / ocean_floor (harness/trans_depth.py)
+    'Ems.C12.depth_source_translated', 'Ems.C12.find_floor_term_spec', 'Ems.C12.find_floor_term_last_valid',
+    'Ems.C12.ocean_floor_steps_generated',
 ]
+EXTRA_MODULES = ['EmsModel.Props.C12Src']
 RULE = ('(a) every floor shape of a 2x3 column grid with 2 layers (3^6 = 729 wet-layer assignments, each column '
         '0..all layers wet) is enumerated, spread over datasets of the four conventions with a 2x3 face grid; each '
         'dataset carries up to four depth coordinates in the four axis configurations {positive up, down} x '
@@ -87,6 +91,50 @@ def helper_index(column: str) -> str | None:
             return str(int(_find_ocean_floor_indexes(arr, 'k').values))
     except Exception:  # noqa
         return None
+
+
+# ---- B1 begin: helpers of the source-translator cross-check (harness/trans_depth.py) --------------------------
+SRC_POOL = [-2.5, -1.0, 0.0, 0.5, 3.0, 1000.0]
+SRC_OP_COLUMNS = [[1, None, 1], [None, 1, 1], [None, None], [5, None, -3, None], [None, 2, None, 2, 1], [2, 2, 2],
+                  [0, -1, -1], [0.5], [None], [3, 1, 3, 0], [-1, None, -1, -2], [None, 0, 0.25, 0.25]]
+
+
+def src_column_values(column: str, k: int) -> list:
+    """numbers (dyadic, of both signs, zero included) for the valid layers of a v/n column; None = NaN"""
+    return [SRC_POOL[(k + 3 * j) % len(SRC_POOL)] if ch == 'v' else None for j, ch in enumerate(column)]
+
+
+def src_col_str(vals) -> str:
+    return ','.join(D.rat(v) for v in vals) or '-'
+
+
+def helper_index_values(vals) -> str | None:
+    """`_find_ocean_floor_indexes` on one column of numbers; None when the private helper cannot be called"""
+    import xarray as xr
+    try:
+        from emsarray.operations.depth import _find_ocean_floor_indexes
+        arr = xr.DataArray(np.array([np.nan if v is None else float(v) for v in vals], dtype='f8'), dims=['k'])
+        with warnings.catch_warnings():
+            warnings.simplefilter('ignore')
+            return str(int(_find_ocean_floor_indexes(arr, 'k').values))
+    except Exception:  # noqa
+        return None
+
+
+def xarray_op(op: str, vals) -> str:
+    """what xarray itself computes for one construct of the expression language of Core/DepthSrc.lean"""
+    import xarray as xr
+    arr = xr.DataArray(np.array([np.nan if v is None else float(v) for v in vals], dtype='f8'), dims=['k'])
+    try:
+        with warnings.catch_warnings():
+            warnings.simplefilter('ignore')
+            if op == 'argmax':
+                return str(int(arr.argmax('k').values))
+            res = arr.cumsum('k') if op == 'cumsum' else arr * 0 + 1
+            return ','.join(D.rat(v) for v in D.flat_values(res.values)) or '-'
+    except Exception:  # noqa
+        return 'ERR'
+# ---- B1 end --------------------------------------------------------------------------------------------------
 
 
 def visit_order(db: D.DBuilt, names) -> list | None:
@@ -594,6 +642,25 @@ def run(ctx) -> None:
                 continue
             items.append((f'fidx {c}', got, {'column': c, 'stream': 'column', 'op': f'fidx {c}'}))
 
+    # ---- B1 begin: cross-check of the source translator (harness/trans_depth.py -> Gen.depthFindFloorIndexes) --
+    # the term generated from the source text, evaluated by the driver on columns of numbers / NaN, against the running
+    # helper; and the meaning given to each construct of the expression language against xarray itself
+    for k, c in enumerate(cols):
+        if len(c) > 4 and k % 3:
+            continue
+        vals = src_column_values(c, k)
+        got = helper_index_values(vals)
+        if got is None:
+            ctx.count('src-column:private-helper-interface-changed')
+            continue
+        line = 'srcfidx ' + src_col_str(vals)
+        items.append((line, got, {'column': c, 'values': vals, 'stream': 'src-column', 'op': line}))
+    for vals in SRC_OP_COLUMNS:
+        for op in ('cumsum', 'argmax', 'indicator'):
+            line = f'srcop {op} {src_col_str(vals)}'
+            items.append((line, xarray_op(op, vals), {'values': vals, 'stream': 'src-op', 'op': line}))
+    # ---- B1 end ---------------------------------------------------------------------------------------------
+
     if ctx.searching and ctx.driver is None:
         ctx.evaluated(len(items))
         return
@@ -606,6 +673,13 @@ def replay(ctx, data) -> int:
 
 def run_one(ctx, inp: dict) -> dict:
     out = {}
+    if inp.get('stream') in ('src-column', 'src-op'):        # B1: source-translator cross-check
+        op = inp['op']
+        out['impl'] = (helper_index_values(inp['values']) or 'private helper not callable') if op.startswith('srcfidx') \
+            else xarray_op(op.split()[1], inp['values'])
+        if ctx.driver:
+            out['model'] = ctx.model([op])[0]
+        return out
     if inp.get('stream') == 'column':
         c = inp['column']
         out['impl'] = helper_index(c) or 'private helper not callable as (data_array, depth_dimension)'
